@@ -376,7 +376,9 @@ func init() {
 			runtime.ReadMemStats(&m1)
 			if best < 0 || d < best {
 				best = d
-				mallocs = m1.Mallocs - m0.Mallocs
+			}
+			if k == 0 || m1.Mallocs-m0.Mallocs < mallocs {
+				mallocs = m1.Mallocs - m0.Mallocs // minimum over the repetitions: background allocations only add
 			}
 		}
 		return map[string]any{"ok": true, "nodes": n, "edges": len(es), "mallocs": mallocs, "ns": best.Nanoseconds(), "len": resLen}, nil
